@@ -832,6 +832,9 @@ pub fn gen(r: &mut Rng, n: usize, flavor: &str) -> Vec<String> {
     if flavor == "C08" {
         // a connection the client opened, lost after a valid session: nothing without a handshake afterwards either
         out.push("reconn 2800".to_string());
+        // connections made to the real Session's listener: from an unrelated address, and from the address of a
+        // tracker-listed peer that is still queued as a candidate
+        out.push("accept".to_string());
     }
     if flavor == "C08" {
         // "the peer id the tracker announced for that address": the (address, id) pairs read from tracker replies —
